@@ -1,0 +1,24 @@
+//go:build verif
+
+package transport
+
+import (
+	"net/http"
+	"time"
+)
+
+// Add-only read accessors for the C14 check (kind uptimeouts): the idle time-outs a transport really runs with.
+
+// VerifIdleTimeout is the read loop's idle read deadline of a pipelined connection.
+func (t *PipelineTransport) VerifIdleTimeout() time.Duration { return t.connIdleTimeout() }
+
+// VerifIdleTimeout is the idle timer of a reusable connection (what newReusableConn makes of the option).
+func (t *ReuseConnTransport) VerifIdleTimeout() time.Duration {
+	if t.opts.IdleTimeout <= 0 {
+		return defaultIdleTimeout
+	}
+	return t.opts.IdleTimeout
+}
+
+// VerifRoundTripper is the http.RoundTripper a DoH transport sends its requests through.
+func (t *DoHTransport) VerifRoundTripper() http.RoundTripper { return t.rt }
